@@ -180,6 +180,32 @@ func checkDepsPath(path []*ast.Identifier, deps packageDeclsDeps) []*ast.Identif
 	return nil
 }
 
+// checkDepsLoop returns a path of dependencies that starts from start and
+// returns to it, or nil if there is no such path. A loop that is reachable
+// from start but does not include it, as a recursive function called in the
+// initialization expression of a variable, is not an initialization loop.
+func checkDepsLoop(start *ast.Identifier, deps packageDeclsDeps) []*ast.Identifier {
+	visited := map[string]bool{}
+	var visit func(path []*ast.Identifier) []*ast.Identifier
+	visit = func(path []*ast.Identifier) []*ast.Identifier {
+		last := path[len(path)-1]
+		for _, dep := range depsOf(last.Name, deps) {
+			if dep.Name == start.Name {
+				return append(path, dep)
+			}
+			if visited[dep.Name] {
+				continue
+			}
+			visited[dep.Name] = true
+			if loopPath := visit(append(path, dep)); loopPath != nil {
+				return loopPath
+			}
+		}
+		return nil
+	}
+	return visit([]*ast.Identifier{start})
+}
+
 // An initLoopError is a error representing an initialization loop.
 type initLoopError struct {
 	node ast.Node
@@ -211,8 +237,7 @@ func detectConstantsLoop(consts []*ast.Const, deps packageDeclsDeps) error {
 func detectVarsLoop(vars []*ast.Var, deps packageDeclsDeps) error {
 	for _, v := range vars {
 		for _, left := range v.Lhs {
-			path := []*ast.Identifier{left}
-			loopPath := checkDepsPath(path, deps)
+			loopPath := checkDepsLoop(left, deps)
 			if loopPath != nil {
 				var msg strings.Builder
 				msg.WriteString("typechecking loop involving " + v.String() + "\n")
